@@ -42,7 +42,9 @@ RULE = ('tables of 2-7 columns (quick: mostly 3-5) x 60-120 rows from a random c
         'all 24 column orders of a 4-column table in the search); every table is relabelled (values untouched): column labels default / '
         'RangeIndex / descending or shuffled strings / permuted or non-contiguous ints / tuples / mixed types / '
         'floats, row index default / DatetimeIndex / strings / offset ints / shuffled ints - all references are by '
-        'POSITION of the table as given; the search also runs REFUSED fits (exactly monotone-related / duplicated / '
+        'POSITION of the table as given; the search also fits LONG tables (1999..4000 rows x 4 columns, rows '
+        'alternating between two sub-populations so that every 2nd / 4th row has another |tau| ranking, plus a '
+        'homogeneous one; truncated=1) against full-table tau-b, and runs REFUSED fits (exactly monotone-related / duplicated / '
         'constant columns: ValueError part-way through the tree build) on a never-fitted and on a previously fitted '
         'instance and checks that a never-fitted model does not claim to be fitted; the truncation t in 1..d+1 is passed as fit(X, t), fit(X, truncated=t), fit(X=X, truncated=t) or omitted '
         '(then t = the default 3); the search additionally runs every t in 1..d+1 in every call form on small '
@@ -526,7 +528,7 @@ def real_fit(X, vt, t, history=(), form='keyword'):
     limit = FIT_TIMEOUT_S if not _TIMEOUTS else FIT_TIMEOUT_AFTER_FIRST_S
     try:
         stage = 'history'
-        with time_limit(limit * (1 + len(history))):
+        with time_limit(limit * (1 + len(history)) * max(1, len(X) // 400)):   # long tables: ~1 s per 1000 rows
             v = VineCopula(vt)
             for Xh, th, fh in history:
                 call_fit(v, Xh, th, fh)
@@ -1281,6 +1283,33 @@ def check_real(ctx, X, vt, t, counts, history=(), form='keyword'):
     return bool(probs)
 
 
+# ----------------------------------------------------------------------------- long tables
+def mst_deficit(full, other):
+    """how much |tau| weight (under `full`) the maximum spanning tree of `other` loses against that of `full`."""
+    return sum(full[i, j] for i, j in kruskal_edges(full)) - sum(full[i, j] for i, j in kruskal_edges(other))
+
+
+def long_alternating_table(rng, n):
+    """4 columns, rows alternating between two sub-populations: even rows - columns (0,1) strongly dependent,
+    (2,3) independent; odd rows - (2,3) (or (0,3)) strongly dependent, (0,1) independent; (1,2) moderately dependent
+    throughout.  Re-drawn until the |Kendall tau| graph of every 2nd and every 4th row has a maximum spanning tree
+    that is NOT one of the full table (deficit > 0.02): any row thinning changes the first regular tree."""
+    for _ in range(30):
+        rs = np.random.RandomState(rng.getrandbits(32))
+        other = rng.choice([(2, 3), (0, 3)])
+        Z = rs.randn(n, 4)
+        even = np.arange(n) % 2 == 0
+        s1, s2, m = rng.uniform(1.5, 3.0), rng.uniform(1.5, 3.0), rng.uniform(0.5, 0.9)
+        Z[:, 2] += m * Z[:, 1]
+        Z[even, 1] += s1 * Z[even, 0]
+        a, b = other
+        Z[~even, b] += s2 * Z[~even, a]
+        full = np.abs(tau_b_matrix(Z))
+        if all(mst_deficit(full, np.abs(tau_b_matrix(Z[::k]))) > 0.02 for k in (2, 4)):
+            return pd.DataFrame(Z, columns=[f'c{i}' for i in range(4)])
+    raise RuntimeError('long alternating table: construction failed')
+
+
 # ----------------------------------------------------------------------------- refused fits
 def refusal_tables(rng, deep):
     """Tables on which the unchanged fit raises ValueError part-way through the tree build: exactly monotone-related
@@ -1414,6 +1443,18 @@ def search(ctx, deep):
             for vt in (('direct',) if not deep else TYPES):
                 counts['tau=-1 fits'] = counts.get('tau=-1 fits', 0) + 1
                 check_real(ctx, X, vt, 1, counts, form=rng.choice(['keyword', 'positional']))
+    # long tables (>= 2000 rows), two alternating sub-populations: the first regular tree is a maximum spanning tree
+    # of |Kendall tau-b| of the FULL table, and the matrix the first Tree.fit received is the full-table tau
+    for n in (1999, 2000, 2001, 2400, 4000):
+        X = long_alternating_table(rng, n)
+        for vt in (('regular',) if not deep else TYPES):
+            counts['long-table fits'] = counts.get('long-table fits', 0) + 1
+            check_real(ctx, relabel(rng, X, 'default' if n != 2400 else None, 'default' if n != 2001 else None),
+                       vt, 1, counts, form=rng.choice(['keyword', 'positional']))
+    rs_ = np.random.RandomState(rng.getrandbits(32))
+    counts['long-table fits'] = counts.get('long-table fits', 0) + 1
+    check_real(ctx, pd.DataFrame(rs_.randn(2000, 4) @ rs_.randn(4, 4), columns=[f'c{i}' for i in range(4)]),
+               'regular', 1, counts)
     # refused fits: on a never-fitted instance and on a previously fitted one
     for kind, Z in refusal_tables(rng, deep):
         X = relabel(rng, pd.DataFrame(Z))
